@@ -20,10 +20,12 @@ CLAIMED = {
              'checked natively; the bridge N(root) == number of valid configurations and the upper bound with constraints are checked against brute force.',
         note=BASE + 'Contract of count_cardinality_group assumed (bounded check). Counting bridge validated exhaustively to 4 (quick) / 6 (thorough) features.'),
     'C14': dict(category='other', design_ref='DESIGN.md section 4 C14, section 9',
-        text='Decided deductively for all inputs: the operation never writes to its argument and keeps no state between executions (effect analysis). '
-             'The closure itself (work-list loop over two lists, bag reasoning) is outside the verifier: checked natively against the spec is_core and '
-             'against brute-force always-selected sets (bounded).',
-        note=BASE + 'Exactness / soundness / returned-once clauses are bounded only.'),
+        text='Decided deductively for all inputs: every feature returned by get_core_features is core by the tree (the root, or a member of a relation '
+             'that forces all its members whose owner is core) -- loop invariant over the two work lists, all definedness obligations of the loop; the '
+             'operation never writes to its argument and keeps no state between executions (effect analysis). Completeness and returned-once are '
+             'checked natively against the spec is_core, and is_core against brute-force always-selected sets (bounded).',
+        note=BASE + 'Completeness (no core feature is missing) needs a reachability invariant that was not written: bounded only. Engine schemas used: '
+                    'elements of a sequence built by appending pieces come from the pieces; termination of the work-list loop not proved.'),
     'C15': dict(category='other', design_ref='DESIGN.md section 4 C15, section 9',
         text='Decided deductively for all inputs: frame (argument untouched, no state). The recursion mutates a set that is an element of the result '
              'list (aliasing): outside the verifier; partition into mandatory chains and co-selection are checked natively against brute force (bounded).',
@@ -83,10 +85,10 @@ CLAIMED = {
              'with all relation kinds, abstract flags, nested attribute values, named constraints over all eight operators, hostile names.',
         note=BASE + 'The feature-tree walks over nested dict documents are bounded only. JSON objects of the constraint sub-format are modelled as document nodes (doc_view); safename / unquote are used as mathematical functions known through their contracts and the quoting lemma. json library assumed (loads(dumps(j)) == j).'),
     'C06': dict(category='other', design_ref='DESIGN.md section 4 C06, section 9',
-        text='Deductive part: writer purity (effect analysis). Bounded: 4 cycles over random AFM-fragment models (WORD names incl. keyword-embedding words, '
+        text='Deductive part: AFMWriter.read_relation writes for every relation the AFM form that denotes it (name / [name] / [min,max]{all member names in order}) and never an empty text; writer purity (effect analysis). Bounded: 4 cycles over random AFM-fragment models (WORD names incl. keyword-embedding words, '
              'several relations of every cardinality per parent, constraints over not/and/or/implies/iff/requires/excludes up to depth 4, integer-range and '
              'enumerated attributes), relations compared as bags per parent.',
-        note=BASE + 'Everything except purity is bounded. ANTLR AFM front end assumed.'),
+        note=BASE + 'Constraint text, attributes and the ANTLR reader are bounded only. str.join over a list built one name per child is modelled as the string fold of its pieces. ANTLR AFM front end assumed.'),
     'C07': dict(category='other', design_ref='DESIGN.md section 4 C07, section 9',
         text='Deductive part: writer purity (effect analysis); element tag and attributes of a feature (_tag_element: feature / or / alt / and as FeatureIDE defines them; _get_attributes: mandatory and abstract independently, name verbatim); writer stage 1 (_get_ctc_info: constraint tree -> nested rule dicts): for every logical tree without XOR the document has the arities of the format and the truth value of the tree (requires as imp, excludes as imp(a, not b)); reader side: _parse_rule returns, for every rule element, a tree with the truth value the format gives the element (contract shared with C09). Bounded: 4 cycles over random FeatureIDE-fragment models with 0-3 constraints incl. single '
              'literals and hostile names; text identical from the second write on (iff is read as two implications).',
